@@ -886,8 +886,9 @@ def handshake(sim, a, b, **acq):
             and a.ctl.ike_sas[0].state == State.ESTABLISHED and b.ctl.ike_sas[0].state == State.ESTABLISHED)
 
 
-def make_star(seed=0, peers=2, v6=False, **kw):
-    """Hub H (192.0.2.100) with one connection to each of P1..Pn; returns (sim, hub, [peers])."""
+def make_star(seed=0, peers=2, v6=False, share_protect=False, **kw):
+    """Hub H (192.0.2.100) with one connection to each of P1..Pn; returns (sim, hub, [peers]). share_protect: every connection of the hub uses ONE protect
+    list object (what a YAML alias produces), whose entry names neither subnets nor an index."""
     sim = Sim(seed)
     hub_addr = '2001:db8::100' if v6 else '192.0.2.100'
     hub_conf, peer_eps = {}, []
@@ -901,6 +902,11 @@ def make_star(seed=0, peers=2, v6=False, **kw):
         c_hub['my_addr'], c_hub['peer_addr'] = hub_addr, pa
         hub_conf[f'to_p{i + 1}'] = c_hub
         confs.append((pa, {'to_hub': c_peer}))
+    if share_protect:
+        first = next(iter(hub_conf.values()))['protect'][0]
+        shared = [{k_: v_ for k_, v_ in first.items() if k_ not in ('index', 'my_subnet', 'peer_subnet')}]
+        for c_ in hub_conf.values():
+            c_['protect'] = shared
     hub = sim.add('H', [hub_addr], hub_conf)
     for i, (pa, c) in enumerate(confs):
         peer_eps.append(sim.add(f'P{i + 1}', [pa], c))
